@@ -14,6 +14,7 @@ package main
 import (
 	"bytes"
 	"fmt"
+	"math"
 	"math/rand"
 	"regexp"
 	"sort"
@@ -265,7 +266,7 @@ type l1env struct {
 
 func atoMSInt(ato string) int64 {
 	f, _ := strconv.ParseFloat(ato, 64)
-	return int64(int(f * 1000)) // the Go expression of writeChunkedSegment
+	return int64(math.Round(f * 1000)) // the Go expression of writeChunkedSegment (rounds since /repo 4ed430d)
 }
 
 // atoMSExact parses a decimal number of seconds with at most 3 decimals into milliseconds.
